@@ -360,10 +360,10 @@ func constRepr(k py.Object) string {
 type RefProgram struct {
 	ID    int               `json:"id"`
 	Main  string            `json:"main"`
-	Files map[string]string `json:"files,omitempty"` // relative path -> source (import scenarios)
-	Path  []string          `json:"path,omitempty"`  // sys.path entries relative to the scenario root
-	Mode  string            `json:"mode,omitempty"`  // "" exec | "compile" (only report whether it compiles)
-	After *string           `json:"after,omitempty"` // second program run in the same namespace afterwards
+	Files map[string]string `json:"files,omitempty"`      // relative path -> source (import scenarios)
+	Path  []string          `json:"path,omitempty"`       // sys.path entries relative to the scenario root
+	Mode  string            `json:"mode,omitempty"`       // "" exec | "compile" (only report whether it compiles)
+	After *string           `json:"after,omitempty"`      // second program run in the same namespace afterwards
 	Late  map[string]string `json:"late_files,omitempty"` // files that appear only when the program calls fs_add(path)
 }
 
